@@ -17,6 +17,83 @@ def tasks(ctx):
     ts = [Task(O + "TickDMA", O + "TickDMA", args=pc.tickdma_args), Task(O + "startDMA", O + "startDMA"), Task(O + "WriteDMA", O + "WriteDMA"),
           Task(O + "ReadDMA", O + "ReadDMA"), Task(O + "Read", O + "Read"), Task(O + "PPURead", O + "PPURead"),
           LemmaTask("lemma:dma", pc.dma_induction, ["(*oam.OAM).TickDMA (inductive invariant)", "(*oam.OAM).WriteDMA"])]
+    # the bus's per-cycle step performs exactly one DMA step and one clock tick, whatever the other is doing
+    import props.mapper_common as mcx
+    from engine import vsl as _vsl
+    from props.mem_common import keep_labels as _kl
+
+    def _valid3(w, st, args):
+        ce = w.e.ev
+        env = {"m": _vsl.TV(args[0], ce.ev.ty_of(mcx.ptr_tid(w.p, "memory.Mapper")))}
+        return ce.ev.as_bool(ce.ev.eval(_vsl.parse("valid3(m.mbc)"), env, st, st))
+    ts.append(Task(mcx.M + "EndMachineCycle[mbc3]", mcx.M + "EndMachineCycle", variant="mbc3",
+                   overrides={"Audio.ch2.sweep": mcx.nil_value, "Mapper.mbc": mcx.mbc_override("mbc3")}, extra_requires=[_valid3],
+                   keep=_kl({"rtc", "dma", "ok"})))
+    def dma_source(ctx, eng, ce):
+        """the source function Mapper.EndMachineCycle hands to TickDMA is the mapper's own bus read (bound to the same
+        mapper), so 'byte k is what the bus returns for source+k in the cycle it is copied' (TickDMA's contract, over an
+        abstract read function) is a statement about the machine's real bus"""
+        from engine.driver import Lem
+        from engine.verify import verify_function
+        from engine.core import Closure, Ptr
+        import z3
+        calls = []
+
+        fread = ctx.prog.func(mcx.M + "Read")
+
+        def wraps_bus_read(e, s, fnv, me):
+            """a closure other than the bound method is accepted iff, with the bus read abstract, it performs exactly one
+            read of the receiver's bus, at the address it was given, and returns that byte"""
+            reads = []
+
+            def h_read(e2, s2, a2, site2):
+                r_ = e2.fresh(fread.results[0], "busread")
+                reads.append((list(a2), r_))
+                return [(s2, r_)]
+            saved = e.abstract
+            e.abstract = dict(saved)
+            e.abstract["(*memory.Mapper).Read"] = h_read
+            try:
+                addr = e.fresh(fread.params[1]["t"], "dmaaddr")
+                outs = e.call_value(s.fork(), fnv, [addr])
+            except Exception:
+                return False
+            finally:
+                e.abstract = saved
+            if len(outs) != 1 or len(reads) != 1:
+                return False
+            (a2, r_), v = reads[0], outs[0][1]
+            return (isinstance(a2[0], Ptr) and isinstance(me, Ptr) and a2[0].obj == me.obj and tuple(a2[0].path) == tuple(me.path)
+                    and z3.is_expr(a2[1]) and a2[1].eq(addr) and z3.is_expr(v) and v.eq(r_))
+
+        def h_tick(e, s, args, site):
+            calls.append((s.pcond(), list(args), s))
+            return [(s, None)]
+        eng.abstract = dict(eng.abstract)
+        eng.abstract["(*oam.OAM).TickDMA"] = h_tick
+
+        def setup(w, st, args):
+            ctx.seed_globals(st)
+        r = verify_function(eng, ce, mcx.M + "EndMachineCycle", variant="mbc3", setup=setup,
+                            overrides={"Audio.ch2.sweep": mcx.nil_value, "Mapper.mbc": mcx.mbc_override("mbc3")}, extra_requires=[_valid3])
+        lem = Lem()
+        me = r.args[0]
+        bad = []
+        for (pc_, a, s_) in calls:
+            fnv = a[1] if len(a) == 2 else None
+            ok = (isinstance(fnv, Closure) and fnv.fn is not None and fnv.fn.replace("$bound", "").endswith("memory.Mapper).Read")
+                  and len(fnv.bind or ()) == 1 and isinstance(fnv.bind[0], Ptr) and isinstance(me, Ptr)
+                  and fnv.bind[0].obj == me.obj and tuple(fnv.bind[0].path) == tuple(me.path))
+            if not ok and isinstance(fnv, Closure) and fnv.fn is not None:
+                ok = wraps_bus_read(eng, s_, fnv, me)
+            if not ok:
+                bad.append("TickDMA called with %r" % (fnv,))
+        lem.add("lemma:dma-source:TickDMA-is-given-the-mapper's-own-bus-read", z3.BoolVal(bool(bad) or not calls),
+                info={"detail": "; ".join(bad) or "%d call site outcome(s), each with the bound method Read of the receiver" % len(calls)})
+        lem.covers.append(("lemma:dma-source#cover", z3.Or(*[c[0] for c in calls]) if calls else z3.BoolVal(False)))
+        lem.stats = dict(eng.stats)
+        return lem
+    ts.append(LemmaTask("lemma:dma-source", dma_source, ["(*memory.Mapper).EndMachineCycle"]))
     return filter_tasks(ts)
 
 
